@@ -243,10 +243,18 @@ def run(ctx: Ctx) -> None:
                     "sites",
                 )
             items = {n: {"id": j} for j, n in enumerate(names)}
+            given = dict(items)
             try:
-                got_d = et.set_task_dict(dict(items))
+                got_d = et.set_task_dict(given)
             except Exception:  # noqa: BLE001
                 got_d = None
+            # parsing reads the caller's dictionary: the same dictionary parses alike a second time
+            try:
+                again_d = et.set_task_dict(given)
+            except Exception:  # noqa: BLE001
+                again_d = None
+            same_again = (got_d is None and again_d is None) or (got_d is not None and again_d is not None and [(k_, id(v_)) for k_, v_ in got_d.items()] == [(k_, id(v_)) for k_, v_ in again_d.items()])
+            ctx.check(list(given.items()) == list(items.items()) and same_again, "C20/parsing_task_names_consumes_the_callers_dictionary", dict(names=names, left=list(given), first=repr(got_d)[:120], second=repr(again_d)[:120]), "sites")
             if got_d is not None or all(n in by_value for n in names):
                 want_pairs = [(by_value[n], v) for n, v in items.items() if n in by_value]  # the oracle never hashes a member
                 got_pairs = list(got_d.items()) if got_d is not None else None
